@@ -1,4 +1,5 @@
 import QuinnModel.Lemmas.Dedup
+import QuinnModel.Lemmas.Receive
 /-
 C04 — Only authentic packets are acted on, each at most once.   (property theorems only)
 Core: the duplicate filter.  `accepted d ps` lists the packet numbers reported "not a duplicate"
@@ -16,6 +17,50 @@ theorem dedup_at_most_once (ps : List Nat) : (accepted init ps).Nodup :=
 theorem dedup_refines_set (d : Dedup) (seen : Nat → Prop) (h : Inv d seen) (p : Nat) :
     Inv (insert d p).1 (fun q => seen q ∨ q = p) ∧ ((insert d p).2 = false → ¬ seen p) :=
   ⟨insert_preserves d seen h p, fun hnd => insert_not_dup_fresh d seen h p hnd⟩
+
+/-- receive pipeline (ideal AEAD): over ANY sequence of datagrams — genuine, replayed, reordered, forged,
+    truncated, unprotected — the packets whose frames are processed were authentic protected packets, and no
+    packet number is processed twice (first packet of a connection included: see the T1 anchor on
+    `handle_first_packet`) -/
+theorem processed_implies_authentic_fresh (ps : List Receive.Pkt) (c : Receive.C) (hd : c.dedup = Dedup.init) :
+    (Receive.processedPns (Receive.run c ps)).Nodup ∧
+    ∀ (c' : Receive.C) (p : Receive.Pkt) (n : Nat), (Receive.step c' p).2 = .processed n →
+      p.kind = .protectedPkt ∧ p.authentic = true ∧ n = p.pn := by
+  refine ⟨(Receive.processed_fresh ps c (fun _ => False) (by rw [hd]; exact init_inv)).1, ?_⟩
+  intro c' p n h
+  have := Receive.processed_authentic c' p n h
+  exact ⟨this.1, this.2.1, this.2.2.1⟩
+
+/-- a forged, corrupted or cross-connection protected packet has no effect beyond the failure counter -/
+theorem forged_no_effect (c : Receive.C) (p : Receive.Pkt) (hk : p.kind = .protectedPkt) (ha : p.authentic = false)
+    (hh : p.headerOk = true) (hr : Receive.isStatelessReset p = false) :
+    Receive.step c p = ({ c with authFailures := c.authFailures + 1 }, .dropped) :=
+  Receive.forged_no_effect c p hk ha hh hr
+
+/-- the only unauthenticated input that ends an established connection: a datagram of at least
+    RESET_TOKEN_SIZE + 5 bytes whose last 16 bytes are the token the peer issued for the CID in use -/
+theorem reset_iff_token (c : Receive.C) (p : Receive.Pkt) :
+    (Receive.step c p).2 = .statelessReset ↔
+      (p.len ≥ Gen.resetTokenSize + Gen.resetMinLenExtra ∧ p.endsWithResetToken = true) :=
+  Receive.reset_iff c p
+
+/-- a Retry is followed iff: client, still handshaking, no other server packet processed, non-empty token,
+    integrity tag verifies — and at most once -/
+theorem retry_accept_iff (c : Receive.C) (p : Receive.Pkt) (hk : p.kind = .retry) (hh : p.headerOk = true)
+    (hr : Receive.isStatelessReset p = false) :
+    (Receive.step c p).2 = .retryFollowed ↔
+      (c.handshake = true ∧ c.server = false ∧ c.authed = 0 ∧ 16 < p.retryPayloadLen ∧ p.authentic = true) :=
+  Receive.retry_followed_iff c p hk hh hr
+
+theorem retry_at_most_once (c : Receive.C) (p q : Receive.Pkt) (hp : (Receive.step c p).2 = .retryFollowed) :
+    (Receive.step (Receive.step c p).1 q).2 ≠ .retryFollowed :=
+  Receive.retry_at_most_once c p q hp
+
+/-- Version Negotiation ends only an attempt that has not yet processed any server packet -/
+theorem vn_accept_iff (c : Receive.C) (p : Receive.Pkt) (hk : p.kind = .versionNegotiation) (hh : p.headerOk = true)
+    (hr : Receive.isStatelessReset p = false) :
+    (Receive.step c p).2 = .versionMismatch ↔ (c.handshake = true ∧ c.authed = 0 ∧ p.vnListsOurVersion = false) :=
+  Receive.vn_abort_iff c p hk hh hr
 
 -- non-vacuity: a run with duplicates and reordering
 example : accepted init [3, 1, 3, 2, 1, 200, 3, 199] = [3, 1, 2, 200, 199] := by decide
